@@ -48,6 +48,7 @@ class Out:
         self.fns: Dict[str, FnRecord] = {}
         self.edits: List[str] = []
         self.dropped: List[str] = []
+        self.uncontracted: List[str] = []
         self._cur_fn: Optional[str] = None
 
     # -- low level ------------------------------------------------------------------------------
